@@ -144,6 +144,10 @@ PAIR_POOL = ['p', '.x', 'li', '#p2', 'div > p', ':checked', 'p:not(.x)', 'li:nth
 # recorded findings of C05-R1 (`a, a:dir(ltr)`, `a, a:defined`), which that rule identifies by input
 
 
+NEST_X = [':empty', ':root', 'p', ':first-child', ':checked', ':scope', '.x', ':link', ':lang(fr)', ':required', '[type]']
+NEST_A = ['p, span', 'html, li, input', '.x', ':empty, a']
+
+
 def boolean_algebra_table(ctx, rule, deep=False):
     """`A, B` selects the union of A and B (document order), :is(A, B) the same set, :not(A) the complement of :is(A),
     X:is(A) the intersection - on HTML and XML flavours of a tree, with a namespace map."""
@@ -157,6 +161,13 @@ def boolean_algebra_table(ctx, rule, deep=False):
     for a in PAIR_POOL:
         texts += [f'{x}:is({a})' for x in ('p', '*', 'li')] + [f':not({a})']
     texts += ['p', '*', 'li']
+    # the same laws one level down: a compound X:is(A) used as an alternative of an enclosing list
+    nest_x = NEST_X if deep else NEST_X[:6]
+    nest_a = NEST_A if deep else NEST_A[:2]
+    nested = [(x, a) for x in nest_x for a in nest_a]
+    for x, a in nested:
+        c = f'{x}:is({a})'
+        texts += [x, f':is({a})', c, f':is({c})', f':where({c})', f':not({c})', f':is({c}, b)', f':not({c}, b)', 'b', f'*:nth-child(n of {c})']
     texts = list(dict.fromkeys(texts))
     docs, meta = {}, {}
     for kind in kinds:
@@ -198,12 +209,95 @@ def boolean_algebra_table(ctx, rule, deep=False):
                 rx_ = sel(x)
                 check(f'{x}:is({a})', [e for e in rx_[1] if e in ra[1]], f'the intersection of {x!r} and {a!r}')
             check(f':not({a})', [e for e in els if e not in ra[1]], f'the complement of {a!r}')
+        for x, a in nested:
+            rx_, ra, rb = sel(x), sel(f':is({a})'), sel('b')
+            if rx_[0] != 'ok' or ra[0] != 'ok' or rb[0] != 'ok':
+                if bad is None:
+                    bad = (kind, x if rx_[0] != 'ok' else a, show(rx_ if rx_[0] != 'ok' else ra), 'a result (each selector of the pool is valid)')
+                continue
+            c = f'{x}:is({a})'
+            both = [e for e in rx_[1] if e in ra[1]]
+            check(c, both, f'the intersection of {x!r} and :is({a})')
+            check(f':is({c})', both, f'what {c!r} selects (a list of one alternative)')
+            check(f':where({c})', both, f'what {c!r} selects (a list of one alternative)')
+            check(f'*:nth-child(n of {c})', both, f'what {c!r} selects (every child counted among its own kind)')
+            check(f':not({c})', [e for e in els if e not in both], f'the complement of {c!r}')
+            check(f':is({c}, b)', sorted(set(both) | set(rb[1])), f'the union of {c!r} and b')
+            check(f':not({c}, b)', [e for e in els if e not in both and e not in rb[1]], f'the complement of the union of {c!r} and b')
     rule.instance({'api_calls': len(reqs)}, key='boolean-algebra')
     rule.obligation(bad is None)
     if bad is not None:
         kind, text, got, law = bad
         rule.violation(f'Boolean algebra `{text}` ({kind})', 'soupsieve/css_match.py / css_parser.py',
                        f'{text!r} on the {kind} flavour of the reference tree selects {got}; it must select {law}')
+
+
+def long_list_table(ctx, rule, deep=False):
+    """The union law for lists of 1 .. 9 alternatives (a shortcut taken above some length must answer as the loop does): type
+    selectors under a default namespace on a tree with the same local names in three namespaces, classes, ids and a mix;
+    bare, inside :is() and inside :not()."""
+    from ..e2e import batch_api
+    X, Y = 'urn:x', 'urn:y'
+    names = ['e', 'f', 'g', 'h', 'i', 'j', 'k', 'l', 'm']
+    kids = []
+    for n_, nm in enumerate(names):
+        kids.append((nm, {'_ns': (X, Y, None)[n_ % 3], 'class': [f'c{n_}'], 'id': f'i{n_}'}, []))
+        kids.append((nm, {'_ns': (Y, None, X)[n_ % 3], 'class': [f'c{(n_ + 1) % 9}']}, []))
+        kids.append((nm.upper(), {'_ns': X}, []))
+    T = [('root', {'_ns': X}, kids)]
+    doc, order, L = make_doc(T, 'xml')
+    idx = {id(n_): i for i, n_ in enumerate(order)}
+    els = [idx[id(e)] for e in elements(order)]
+    pools = {'type': names, 'class': [f'.c{i}' for i in range(9)], 'id': [f'#i{i}' for i in range(9)],
+             'mixed': ['e', '.c3', '#i5', 'q|g', '*|h', '|i', 'j', '[id=i1]', 'k:first-child']}
+    maps = {'default': {'': X, 'q': Y}, 'plain': {'q': Y}}
+    if not deep:
+        pools = {k: pools[k] for k in ('type', 'mixed')}
+        maps = {'default': maps['default']}
+    lengths = range(1, 10) if deep else (2, 4, 5, 6, 9)
+    forms = ('{}', ':is({})', '*|*:is({})', '*|*:nth-child(n of {})')
+    reqs, keys = [], []
+    for mk in maps:
+        kw = (('namespaces', maps[mk]),)
+        for pk, pool in pools.items():
+            for form in forms:
+                for a in pool:
+                    reqs.append(('t', 'select', form.format(a), None, kw))
+                    keys.append((mk, pk, form, a))
+                for n_ in lengths:
+                    reqs.append(('t', 'select', form.format(', '.join(pool[:n_])), None, kw))
+                    keys.append((mk, pk, form, n_))
+            for n_ in lengths:
+                reqs.append(('t', 'select', '*|*:not({})'.format(', '.join(pool[:n_])), None, kw))
+                keys.append((mk, pk, 'not', n_))
+    res = dict(zip(keys, batch_api(ctx, {'t': (doc, order)}, reqs)))
+    show = lambda r: [label(order[i]) for i in r[1]] if r[0] == 'ok' else f'raises {r[1]}'      # noqa: E731
+    bad = None
+    for mk in maps:
+        for pk, pool in pools.items():
+            for n_ in lengths:
+                lst = ', '.join(pool[:n_])
+                for form in forms:
+                    parts = [res[(mk, pk, form, a)] for a in pool[:n_]]
+                    if any(p_[0] != 'ok' for p_ in parts):
+                        raise AnalysisError(f'long list table: {form} of {pool[:n_]} does not compile / select: {parts}')
+                    union = sorted(set().union(*[set(p_[1]) for p_ in parts]))
+                    got = res[(mk, pk, form, n_)]
+                    text = form.format(lst)
+                    rule.instance({'namespaces': mk, 'selector': text, 'selected': len(got[1]) if got[0] == 'ok' else got},
+                                  key=f'long|{mk}|{pk}|{n_}|{form}', sample_cap=4)
+                    if got != ('ok', union) and bad is None:
+                        bad = (mk, text, show(got), [label(order[i]) for i in union], n_, 'the union of what its alternatives select one by one in the same place')
+                pos, neg = res[(mk, pk, '*|*:is({})', n_)], res[(mk, pk, 'not', n_)]
+                want = [e for e in els if pos[0] == 'ok' and e not in pos[1]]
+                if neg != ('ok', want) and bad is None:
+                    bad = (mk, f'*|*:not({lst})', show(neg), [label(order[i]) for i in want], n_, f'the complement of *|*:is() of the same list')
+    rule.obligation(bad is None)
+    if bad is not None:
+        mk, text, got, want, n_, law = bad
+        rule.violation(f'long list `{text}` ({mk} map)', 'soupsieve/css_match.py (match_selectors)',
+                       f'{text!r} (a list of {n_} alternatives, namespace map {maps[mk]}) on the XML reference tree selects {got}; {law} '
+                       f'is {want}')
 
 
 HOSTILE = ['a', 'A', '0', '-', '-0', '--', 'a b', 'a b', 'a\tb', 'a\x0bb', 'a b', 'a\x1cb', 'a.b', 'a#b', 'a:b', 'a"b', "a'b", 'a\\b', 'a\x7fb', '\x01',
@@ -233,6 +327,10 @@ def escape_selects_table(ctx, rule):
         spec_kids.append(('i', {'id': 'decoy', 'class': 'xax ba ab' if kind != 'html' else ['xax', 'ba', 'ab'], 'data': 'decoy', '_label': 'decoy'}, []))
         spec_kids.append(('i', {'id': 'decoy2', 'class': 'xax ba' , 'data': 'decoy2', '_label': 'decoy2'}, []))
         spec_kids.append(('i', {'id': 'pieces', 'class': ['a', 'b'] if kind == 'html' else 'a b', 'data': 'pieces', '_label': 'pieces'}, []))
+        # near misses of plain values: the value with one white-space character before or after it (an end anchor that lets a final
+        # line feed pass, a comparison after stripping)
+        for j, near in enumerate(['a\n', '\na', 'a ', ' a', 'a\r', 'a\x0c', 'a\n\n', 'a-', '-\n', '0\n', 'é\n']):
+            spec_kids.append(('i', {'id': near, 'class': ['zz'] if kind == 'html' else 'zz', 'data': near, '_label': f'near{j}'}, []))
         doc, order, L = make_doc([('r', {'_label': 'root'}, spec_kids)], kind)
         idx = {id(n_): i for i, n_ in enumerate(order)}
         els = [e for e in elements(order) if e.get('name') == 'i']
@@ -274,6 +372,13 @@ def escape_selects_table(ctx, rule):
         rule.violation(f'escape({s!r}) selects', 'soupsieve/css_parser.py (escape) / css_match.py (match_id, match_classes, match_attributes)',
                        f'on the {kind} tree of hostile identifiers, {text!r} (built with escape({s!r})) selects {got}; exactly the elements that '
                        f'carry {s.replace(chr(0), chr(0xfffd))!r} are {want}')
+
+
+HTML_ONLY = [':defined', ':dir(ltr)', ':checked', ':link', ':any-link', ':enabled', ':disabled', ':required', ':optional', ':read-write', ':read-only',
+             ':default', ':indeterminate', ':placeholder-shown', ':in-range', ':out-of-range']
+HTML_ONLY_TEMPLATES = ['{H}', '*{H}:first-child', '*{H}:last-child', '*{H}:not(.zz)', '*{H}:is(*)', ':is({H})', '{H}:root', ':root{H}', '*{H}:empty',
+                       '* > {H}:nth-child(n)', '{H}:last-child, {H}:first-child', '*{H}:only-of-type', '*{H}:where(*):not(z)',
+                       '* {H}:not(:root)', '{H}:has(*), {H}:not(:has(*))', '*{H}:nth-last-child(n of *)', '*:first-child{H}:first-child']
 
 
 def case_rules_table(ctx, rule):
@@ -336,6 +441,16 @@ def case_rules_table(ctx, rule):
                       key=f'case|embedded|{fn}|{s}|{label(target)}')
         if g != want and bad is None:
             bad = (f'xml document with embedded XHTML-namespaced elements, {fn}() from {label(target)}', s, g, want)
+    # ... in whatever position of a selector the HTML-only pseudo-class stands, and whatever follows it
+    xdoc, xorder, XL = make_doc(spec, 'xml')
+    from ..e2e import batch_api
+    reqs = [(dk, 'select', tpl.format(H=h), None, ()) for dk in ('plain', 'embedded') for h in HTML_ONLY for tpl in HTML_ONLY_TEMPLATES]
+    for (dk, _, s_, _, _), got in zip(reqs, batch_api(ctx, {'plain': (xdoc, xorder), 'embedded': (doc, order)}, reqs)):
+        n += 1
+        g = [label((xorder if dk == 'plain' else order)[i]) for i in got[1]] if got[0] == 'ok' else f'raises {got[1]}'
+        rule.instance({'document': f'xml ({dk})', 'selector': s_, 'selected': g, 'expected': []}, key=f'case|htmlonly|{dk}|{s_}', sample_cap=6)
+        if g != [] and bad is None:
+            bad = (f'XML document that is not XHTML ({dk}: {"no namespaces" if dk == "plain" else "XHTML-namespaced elements embedded"})', s_, g, [])
     # namespace-aware HTML trees (html5lib) keep the case of foreign element names (foreignObject); selectors still match them
     # regardless of ASCII case, as for every element of an HTML document - XML flavours compare exactly
     SVGN = 'http://www.w3.org/2000/svg'
@@ -390,29 +505,48 @@ def nth_formula_table(ctx, rule):
     from ..e2e import batch_api
     idx = {id(n_): i for i, n_ in enumerate(order)}
     reqs, wants = [], []
+
+    def designated(a, b, of_type, last, of_s):
+        want = []
+        for e in els:
+            if of_type:
+                cand = [c for c in els if c.get('name') == e.get('name')]
+            elif of_s == '.k':
+                cand = [c for c in els if 'k' in (c.get('attrs').get('class') or [])]
+            elif of_s == 'li':
+                cand = [c for c in els if c.get('name') == 'li']
+            else:
+                cand = list(els)
+            if last:
+                cand = cand[::-1]
+            if not any(c is e for c in cand):
+                continue
+            posn = [i for i, c in enumerate(cand) if c is e][0] + 1
+            if any(a * k + b == posn for k in range(0, 20)):
+                want.append(idx[id(e)])
+        return want
     for text, a, b in forms:
         for pseudo, of_type, last, of_s in (('nth-child', False, False, None), ('nth-last-child', False, True, None), ('nth-of-type', True, False, None),
                                             ('nth-last-of-type', True, True, None), ('nth-child', False, False, '.k'), ('nth-last-child', False, True, 'li')):
             sel = f':{pseudo}({text}{" of " + of_s if of_s else ""})'
-            want = []
-            for e in els:
-                if of_type:
-                    cand = [c for c in els if c.get('name') == e.get('name')]
-                elif of_s == '.k':
-                    cand = [c for c in els if 'k' in (c.get('attrs').get('class') or [])]
-                elif of_s == 'li':
-                    cand = [c for c in els if c.get('name') == 'li']
-                else:
-                    cand = list(els)
-                if last:
-                    cand = cand[::-1]
-                if not any(c is e for c in cand):
-                    continue
-                posn = [i for i, c in enumerate(cand) if c is e][0] + 1
-                if any(a * k + b == posn for k in range(0, 20)):
-                    want.append(idx[id(e)])
             reqs.append(('t', 'select', sel, idx[id(L['root'])], ()))
-            wants.append((sel, want))
+            wants.append((sel, designated(a, b, of_type, last, of_s)))
+    # several An+B of one query: in one compound (intersection), in a list (union), one negated (difference) - each keeps its own
+    # counting state and its own `of S`
+    parts = [(':nth-child(-n+5)', -1, 5, False, False, None), (':nth-child(2n+1)', 2, 1, False, False, None), (':nth-child(-2n+6)', -2, 6, False, False, None),
+             (':nth-last-child(n+2)', 1, 2, False, True, None), (':nth-of-type(2n)', 2, 0, True, False, None), (':nth-last-of-type(-n+2)', -1, 2, True, True, None),
+             (':nth-child(n+2 of .k)', 1, 2, False, False, '.k'), (':nth-child(2n+1 of li)', 2, 1, False, False, 'li'),
+             (':nth-last-child(-n+2 of li)', -1, 2, False, True, 'li'), (':nth-last-child(odd of .k)', 2, 1, False, True, '.k'),
+             (':nth-child(2 of li)', 0, 2, False, False, 'li'), (':nth-child(2 of .k)', 0, 2, False, False, '.k')]
+    des = {t[0]: designated(*t[1:]) for t in parts}
+    allels = [idx[id(e)] for e in els]
+    for s1, s2 in itertools.permutations(des, 2):
+        reqs.append(('t', 'select', f'*{s1}{s2}', idx[id(L['root'])], ()))
+        wants.append((f'*{s1}{s2}', [e for e in des[s1] if e in des[s2]]))
+        reqs.append(('t', 'select', f'{s1}, {s2}', idx[id(L['root'])], ()))
+        wants.append((f'{s1}, {s2}', [e for e in allels if e in des[s1] or e in des[s2]]))
+        reqs.append(('t', 'select', f'*{s1}:not({s2})', idx[id(L['root'])], ()))
+        wants.append((f'*{s1}:not({s2})', [e for e in des[s1] if e not in des[s2]]))
     for (sel, want), got in zip(wants, batch_api(ctx, {'t': (doc, order)}, reqs)):
         n += 1
         if got != ('ok', want) and bad is None:
@@ -627,7 +761,12 @@ def namespace_table(ctx, rule):
              ('p|f > p|e', ['ex2']), ('p|e[q|a]', ['ex2']), (':not(p|e)', ['root', 'ey', 'en', 'fx']), (':is(q|e, |e)', ['ey', 'en'])]
     m2 = {'': X, 'q': Y}
     rows2 = [('e', ['ex', 'ex2']), ('*', ['ex', 'fx', 'ex2']), ('*|e', ['ex', 'ey', 'en', 'ex2']), ('|e', ['en']), ('q|e', ['ey']), ('[a]', ['ex']),
-             (':not(e)', ['fx']), ('*|*:not(e)', ['root', 'ey', 'en', 'fx']), ('f e', ['ex2']), (':is(e)', ['ex', 'ex2'])]
+             (':not(e)', ['fx']), ('*|*:not(e)', ['root', 'ey', 'en', 'fx']), ('f e', ['ex2']), (':is(e)', ['ex', 'ex2']),
+             # positions count every element sibling, whatever its namespace (the default namespace restricts the subject only)
+             ('*|*:nth-child(2)', ['ey']), ('*|*:nth-child(3)', ['en']), ('*|e:nth-last-child(2)', ['en']), ('e:nth-child(1)', ['ex', 'ex2']),
+             ('*|*:nth-child(n+3)', ['en', 'fx']), ('*:nth-child(4)', ['fx']), ('*:nth-last-child(1)', ['fx', 'ex2']), ('q|e:nth-child(2)', ['ey']),
+             ('*|*:nth-child(even)', ['ey', 'fx']), ('*|*:nth-last-child(-n+2)', ['root', 'en', 'fx', 'ex2']), ('*|*:first-child', ['root', 'ex', 'ex2']),
+             ('*|*:nth-of-type(2)', []), ('*|*:nth-of-type(1)', ['root', 'ex', 'ey', 'en', 'fx', 'ex2']), ('*|*:nth-child(2 of *|e)', ['ey']), ('*|*:nth-child(2 of e)', []), ('*|*:nth-child(1 of e)', ['ex', 'ex2'])]
     rows3 = [(':--px', ['ex', 'ex2']), ('root > :--px', ['ex']), (':--qa', ['ey', 'ex2']), (':--both', ['ex2']), ('f :--px', ['ex2']), (':not(:--px)', ['root', 'ey', 'en', 'fx'])]
     custom = {':--px': 'p|e', ':--qa': '[q|a]', ':--both': ':--px:--qa'}
     XH = 'http://www.w3.org/1999/xhtml'
@@ -652,14 +791,16 @@ def lang_pipeline_table(ctx, rule):
     XMLNS = 'http://www.w3.org/XML/1998/namespace'
     TX = [('html', {'lang': 'en', '_label': 'root'}, [('body', {}, [
         ('div', {'LANG': 'fr', '_label': 'shout'}, [('p', {'_label': 'p1'}, [])]),
-        ('div', {'lang': 'de-CH', '_label': 'de'}, [('p', {'_label': 'p2'}, []), ('p', {'lang': '', '_label': 'p3'}, [('b', {'_label': 'b'}, [])])])])])]
+        ('div', {'lang': 'de-CH', '_label': 'de'}, [('p', {'_label': 'p2'}, []), ('p', {'lang': '', '_label': 'p3'}, [('b', {'_label': 'b'}, [])]),
+                                                    # names are case-sensitive in XHTML: <IFRAME> is an unknown element, not a document boundary
+                                                    ('IFRAME', {'_label': 'ifr'}, [('p', {'_label': 'p4'}, [])])])])])]
     TS = [('html', {'lang': 'en', '_label': 'root'}, [('body', {}, [
         ('section', {'lang': 'de', '_label': 's1'}, [('ul', {'_label': 'u1'}, [('li', {'_label': 'l1'}, ['x'])])]),
         ('section', {'lang': 'fr', '_label': 's2'}, [('ul', {'_label': 'u2'}, [('li', {'_label': 'l2'}, ['x'])])]),
         ('section', {'_label': 's3'}, [('ul', {'_label': 'u3'}, [('li', {'_label': 'l3'}, ['x'])])])])])]
     rows_s = [('li:lang(de)', ['l1']), ('li:lang(fr)', ['l2']), ('li:lang(en)', ['l3']), ('ul:lang(fr)', ['u2']), (':lang(de)', ['s1', 'u1', 'l1'])]
-    rows_x = [('p:lang(en)', ['p1']), ('p:lang(fr)', []), ('p:lang(de)', ['p2']), ('p:lang("*-ch")', ['p2']), ('p:lang("")', ['p3']), ('b:lang("")', ['b']),
-              ('b:lang(de)', []), ('div:lang(en)', ['shout']), (':lang("de-*")', ['de', 'p2'])]
+    rows_x = [('p:lang(en)', ['p1']), ('p:lang(fr)', []), ('p:lang(de)', ['p2', 'p4']), ('p:lang("*-ch")', ['p2', 'p4']), ('p:lang("")', ['p3']), ('b:lang("")', ['b']),
+              ('b:lang(de)', []), ('div:lang(en)', ['shout']), (':lang("de-*")', ['de', 'p2', 'ifr', 'p4'])]
     TM = [('doc', {NSKey('xml:lang', XMLNS, 'lang'): 'de', 'lang': 'en', '_label': 'root'}, [('a', {'_label': 'a'}, []), ('b', {'lang': 'fr', '_label': 'b'}, [])])]
     rows_m = [('a:lang(de)', ['a']), ('a:lang(en)', []), ('b:lang(fr)', []), ('b:lang(de)', ['b'])]
     TH = [('html', {'_label': 'root'}, [('head', {}, [('meta', {'http-equiv': 'Content-Language', 'content': 'es'}, [])]),
@@ -896,6 +1037,61 @@ def scope_independence_table(ctx, rule):
         rule.violation(f'scope independence `{s}` ({kind})', 'soupsieve/css_match.py (CSSMatch.__init__ / supports_namespaces)',
                        f'{s!r} on the {kind} tree with SVG and MathML subtrees: {problem}. Document type and namespace support are facts of the '
                        f'document, not of the element a call starts from')
+
+
+SCOPE_TEMPLATES = ['{S}', '{S} > p', '{S} p', '*:not({S})', ':has(> {S})', '{S}:defined', ':defined{S}', ':root{S}', '{S}:root', 'body > {S}', ':is({S}, li)',
+                   '{S} ~ *', ':not({S}) > b', 'div{S}', '{S}.x', '{S}:not(.z)', ':not({S} *)', '{S}:has(a)', '{S} + *', ':is(div, p){S}:defined',
+                   '{S}:first-child', '{S}:nth-child(n of {S})', ':not(:not({S}))']
+
+
+def scope_denotation_table(ctx, rule, deep=False):
+    """:scope and & denote exactly the element the call was made on (the root element for the document): every template
+    gives the same answer with `:scope`, with `&` and with `#id` of the call target in its place - through select, select_one,
+    match, closest and filter, for several call targets."""
+    from ..e2e import batch_api
+    doc, order, L = make_doc(TREE, 'html')
+    idx = {id(n_): i for i, n_ in enumerate(order)}
+    byid = {e.get('attrs').get('id'): idx[id(e)] for e in elements(order) if e.get('attrs').get('id')}
+    targets = ['d1', 'p3', 'u', 'p1'] if deep else ['d1', 'p3', 'u']
+    fns = ('select', 'match', 'closest', 'filter', 'select_one')
+    reqs, keys = [], []
+    for t in targets:
+        for tpl in SCOPE_TEMPLATES:
+            for sp, text in (('scope', ':scope'), ('amp', '&'), ('id', f'#{t}')):
+                for fn in fns:
+                    reqs.append(('t', fn, tpl.format(S=text), byid[t], ()))
+                    keys.append((t, tpl, sp, fn))
+    for tpl in SCOPE_TEMPLATES:
+        for sp, text in (('scope', ':scope'), ('amp', '&'), ('id', ':root')):
+            for fn in ('select', 'select_one'):
+                reqs.append(('t', fn, tpl.format(S=text), None, ()))
+                keys.append((None, tpl, sp, fn))
+    res = dict(zip(keys, batch_api(ctx, {'t': (doc, order)}, reqs)))
+
+    def show(r):
+        if r[0] != 'ok':
+            return f'raises {r[1]}' if r[0] == 'raises' else str(r)
+        v = r[1]
+        if isinstance(v, list):
+            return [label(order[i]) if isinstance(i, int) and i >= 0 else i for i in v]
+        return label(order[v]) if isinstance(v, int) and not isinstance(v, bool) and v >= 0 else v
+    bad = None
+    for (t, tpl, sp, fn), got in res.items():
+        if sp == 'id':
+            continue
+        ref = res[(t, tpl, 'id', fn)]
+        rule.instance({'target': t or 'document', 'template': tpl, 'spelling': sp, 'function': fn, 'result': show(got)}, key=f'scope-den|{t}|{tpl}|{sp}|{fn}',
+                      sample_cap=6)
+        if got != ref and bad is None:
+            bad = (t, tpl, sp, fn, show(got), show(ref))
+    rule.obligation(bad is None)
+    if bad is not None:
+        t, tpl, sp, fn, got, ref = bad
+        text = tpl.format(S=':scope' if sp == 'scope' else '&')
+        same = tpl.format(S=f'#{t}' if t else ':root')
+        rule.violation(f'scope denotation `{text}` {fn}({t or "document"})', 'soupsieve/css_match.py (match_scope / CSSMatch.__init__ / entry points)',
+                       f'{fn}({text!r}) called on {"<#" + t + ">" if t else "the document"} gives {got}; with the call target named outright, {same!r}, the '
+                       f'answer is {ref}: {":scope" if sp == "scope" else "&"} does not denote exactly the element the call was made on')
 
 
 def default_namespace_state_table(ctx, rule):
